@@ -269,6 +269,8 @@ def add_slotg_stage(ctx, res, focus):
     signal-centred language cannot express; merged into the property's correspondence"""
     try:
         import slotg
+        res.setdefault("distribution", {})
+        res.setdefault("traces_validated_against_impl", 0)
         sub = slotg.stage(ctx, focus)
         res["evaluations"] += sub.get("evaluations", 0)
         res["distinct_nontrivial"] += sub.get("distinct_nontrivial", 0)
